@@ -30,52 +30,7 @@ class PolicyEnv(Env):
         return self.clock.now
 
     def make_breaker(self, bc: dict):
-        from redress.circuit import CircuitBreaker
-
-        env = self
-        EC = self.EC
-
-        class SpyBreaker(CircuitBreaker):
-            def _st(self) -> str:
-                return STATE.get(self.state.value, str(self.state.value))
-
-            def allow(self):
-                d = super().allow()
-                ds = STATE.get(d.state.value, str(d.state.value))
-                ev = d.event if d.event is not None else "-"
-                if ds != self._st():
-                    ev = f"{ev}!decision.state={ds}"
-                env.trace.append({"e": "allow", "allowed": bool(d.allowed), "ev": ev,
-                                  "state": self._st(), "at": env.abs_now()})
-                return d
-
-            def record_success(self):
-                r = super().record_success()
-                env.trace.append({"e": "rec", "op": "ok", "k": "-", "ev": r if r is not None else "-",
-                                  "state": self._st(), "at": env.abs_now()})
-                return r
-
-            def record_failure(self, klass):
-                r = super().record_failure(klass)
-                env.trace.append({"e": "rec", "op": "fail", "k": env._cname(klass),
-                                  "ev": r if r is not None else "-", "state": self._st(),
-                                  "at": env.abs_now()})
-                return r
-
-            def record_cancel(self):
-                r = super().record_cancel()
-                env.trace.append({"e": "rec", "op": "cancel", "k": "-", "ev": "-",
-                                  "state": self._st(), "at": env.abs_now()})
-                return r
-
-        return SpyBreaker(
-            failure_threshold=bc["thr"],
-            window_s=bc["W"] * vtime.TICK,
-            recovery_timeout_s=bc["R"] * vtime.TICK,
-            trip_on={EC[self.perm[k]] for k in bc["trip"]},
-            class_thresholds={EC[self.perm[k]]: n for k, n in bc["cthr"].items() if n > 0},
-            clock=self.clock.monotonic,
-        )
+        return make_spy_breaker(self, bc)
 
     # without a retry component abort_if is only the pre-flight poll
     def abort_if(self) -> bool:
@@ -207,3 +162,54 @@ def run_policy_scenario(pcfg: dict, events: list[dict], *, entry: str = "Policy"
             env.trace.append({"e": "probe-after", "allowed": bool(d.allowed),
                               "state": STATE.get(d.state.value, d.state.value)})
     return env.trace
+
+
+def make_spy_breaker(env, bc: dict):
+    """A CircuitBreaker subclass that delegates to the real methods and records allow / rec
+    events into env.trace (usable with any retryenv.Env)."""
+    from redress.circuit import CircuitBreaker
+
+    self = env
+    EC = env.EC
+
+    class SpyBreaker(CircuitBreaker):
+        def _st(self) -> str:
+            return STATE.get(self.state.value, str(self.state.value))
+
+        def allow(self):
+            d = super().allow()
+            ds = STATE.get(d.state.value, str(d.state.value))
+            ev = d.event if d.event is not None else "-"
+            if ds != self._st():
+                ev = f"{ev}!decision.state={ds}"
+            env.trace.append({"e": "allow", "allowed": bool(d.allowed), "ev": ev,
+                              "state": self._st(), "at": env.clock.now})
+            return d
+
+        def record_success(self):
+            r = super().record_success()
+            env.trace.append({"e": "rec", "op": "ok", "k": "-", "ev": r if r is not None else "-",
+                              "state": self._st(), "at": env.clock.now})
+            return r
+
+        def record_failure(self, klass):
+            r = super().record_failure(klass)
+            env.trace.append({"e": "rec", "op": "fail", "k": env._cname(klass),
+                              "ev": r if r is not None else "-", "state": self._st(),
+                              "at": env.clock.now})
+            return r
+
+        def record_cancel(self):
+            r = super().record_cancel()
+            env.trace.append({"e": "rec", "op": "cancel", "k": "-", "ev": "-",
+                              "state": self._st(), "at": env.clock.now})
+            return r
+
+    return SpyBreaker(
+        failure_threshold=bc["thr"],
+        window_s=bc["W"] * vtime.TICK,
+        recovery_timeout_s=bc["R"] * vtime.TICK,
+        trip_on={EC[self.perm[k]] for k in bc["trip"]},
+        class_thresholds={EC[self.perm[k]]: n for k, n in bc["cthr"].items() if n > 0},
+        clock=self.clock.monotonic,
+    )
